@@ -21,6 +21,7 @@ const (
 	maxNativeFunctionsCount  = 256
 	maxScriggoFunctionsCount = 256
 	maxFieldIndexesCount     = 256
+	maxFuncParamsCount       = 128 // reflect.FuncOf panics with more parameters and results.
 	maxSelectCasesCount      = 65536
 
 	// Types.
